@@ -2,8 +2,8 @@
 from ..rules import topology, delivery, flow
 from .common import declare
 
-RULES = ['FANOUT', 'EMIT-SIG', 'PASS-VALUE', 'FIFO-END', 'SWAP-ATOMIC', 'FLUSH-RESETS', 'STATE-PER-INSTANCE', 'FRESH-READ', 'REVERSED-STACK', 'FLAT-RETURN', 'PROPAGATE', 'NONE-SENTINEL', 'ELEMENT-MEMBERSHIP', 'EAGER-UPDATE']
-FLOORS = {'FANOUT': 4, 'EMIT-SIG': 30, 'PASS-VALUE': 14, 'FIFO-END': 10, 'SWAP-ATOMIC': 6, 'FLAT-RETURN': 20, 'PROPAGATE': 30}
+RULES = ['FANOUT', 'EMIT-SIG', 'PASS-VALUE', 'FIFO-END', 'SWAP-ATOMIC', 'FLUSH-RESETS', 'STATE-PER-INSTANCE', 'FRESH-READ', 'REVERSED-STACK', 'FLAT-RETURN', 'PROPAGATE', 'NONE-SENTINEL', 'ELEMENT-MEMBERSHIP', 'EAGER-UPDATE', 'NONE-BOUND', 'DESTROY-SUPER']
+FLOORS = {'FANOUT': 4, 'EMIT-SIG': 30, 'PASS-VALUE': 14, 'FIFO-END': 10, 'SWAP-ATOMIC': 6, 'FLAT-RETURN': 20, 'PROPAGATE': 30, 'NONE-BOUND': 1, 'DESTROY-SUPER': 3}
 CATALOGUE = ('Stream', 'map', 'starmap', 'filter', 'accumulate', 'slice', 'partition', 'partition_unique',
              'sliding_window', 'unique', 'flatten', 'pluck', 'collect', 'union', 'zip', 'combine_latest', 'zip_latest')
 
@@ -43,3 +43,6 @@ def run(ctx, R):
     R.run(flow.check_flat_return, ctx, R, core)
     R.run(topology.check_none_sentinel, ctx, R, [c for c in M.nodes if c.module.name == 'streamz.core'])
     R.run(flow.check_propagate, ctx, R, modules=('streamz.core', 'streamz.sinks'), note_modules=())
+    R.run(topology.check_none_bound, ctx, R, [c for c in M.nodes if c.module.name == 'streamz.core'])
+    # a node that ends itself (slice reaching `end` calls destroy()) must stay an input of what it feeds
+    R.run(topology.check_destroy_super, ctx, R, [c for c in M.nodes if c.module.name in ('streamz.core', 'streamz.sinks', 'streamz.sources', 'streamz.dask')])
